@@ -224,7 +224,7 @@ impl Prop for C01 {
             st.add("expected_unknown", expected.iter().filter(|o| matches!(o, Outcome::Unknown)).count() as u64);
             let s = &case.stats;
             for (k, v) in [("with_loops", s.loops), ("with_matches", s.matches), ("with_calls", s.calls), ("with_arrays", s.arrays),
-                ("with_dicts", s.dicts), ("with_ref_params", s.ref_params), ("with_casts", s.casts), ("with_recursion", s.recursion), ("with_early_return", s.early_return)] {
+                ("with_dicts", s.dicts), ("with_ref_params", s.ref_params), ("with_casts", s.casts), ("with_recursion", s.recursion), ("with_early_return", s.early_return), ("with_shuffle_functions", s.shuffle_functions), ("with_specialisation_wrappers", s.wrappers), ("with_dispatcher_functions", s.dispatchers)] {
                 if v > 0 {
                     st.count(k);
                 }
